@@ -338,6 +338,21 @@ func (p *Program) posString(pos token.Pos) string {
 	return fmt.Sprintf("%s:%d", strings.TrimPrefix(ps.Filename, repoDir+"/"), ps.Line)
 }
 
+// contractErr: a contract clause that cannot be evaluated against the code (an identifier of the clause
+// no longer exists in the function).  On the unchanged tree this is a mistake in the contract file
+// and fatal; in a check it means the code under the contract changed so that the clause no longer
+// applies, and the function's proved obligations are reported as failed.
+type contractErr struct{ msg string }
+
+var recoverContractErrors = false
+
+func contractFatal(f string, a ...interface{}) {
+	if recoverContractErrors {
+		panic(contractErr{fmt.Sprintf(f, a...)})
+	}
+	fatal(f, a...)
+}
+
 func fatal(f string, a ...interface{}) {
 	fmt.Fprintf(os.Stderr, "govc: "+f+"\n", a...)
 	os.Exit(2)
